@@ -181,3 +181,26 @@ def variant_scripts(node):
         seen.add(tuple(s))
         res.append((tag, s))
     return res
+
+
+def chain_shapes(root, depth=4, trailing=True, leaf=None):
+    """nesting chains: every container holds the next container (first) plus, optionally, one trailing scalar sibling;
+    all 2^(depth-1) kind combinations. Targets bookkeeping that mixes object depth and array depth."""
+    import itertools
+    out = []
+    for kinds in itertools.product("OA", repeat=depth - 1):
+        kinds = ("O" if root == 1 else "A",) + kinds
+        node = None
+        for lvl in range(depth - 1, -1, -1):
+            k = kinds[lvl]
+            kids = []
+            if node is not None:
+                kids.append(node)
+            elif leaf:
+                kids.append(Node(leaf))
+            if trailing and (node is not None):
+                kids.append(Node("T"))
+            names = [min(i, 2) for i in range(len(kids))] if k == "O" else []
+            node = Node(k, kids, names)
+        out.append(node)
+    return out
